@@ -10,72 +10,79 @@ VERIF = os.path.dirname(os.path.dirname(os.path.abspath(__file__)))
 TECH = "bounded symbolic execution of the real Rust code (Kani 0.68 -> CBMC 6.11 -> CaDiCaL SAT), counterexamples replayed natively"
 
 CLAIMED = {
-    "C02": ("4.C02", "Log format and recovery kernel: Wal::open/append_*/sync/truncate/truncate_to/len/replay/last_pending_ops "
-            "executed symbolically through the real Storage traits (one-file in-memory storage). Decided for every id byte, "
-            "every tear offset of a 3-record log, a second crash after a restart that appends behind a torn tail, failed-commit "
-            "and rollback truncation. Bounded: <=3 records, 1-byte ids, delete/commit records only.",
+    "C02": ("4.C02 / 8.5", "Log format and recovery kernel: Wal::open / append_* / sync / truncate / truncate_to / len / replay executed "
+            "symbolically through the real Storage traits (one-file in-memory storage). Decided for every id byte and: every tear "
+            "offset of a 3-record log, a second crash after a restart that appends behind a torn tail (tear inside the second and "
+            "inside the FIRST record of the log), failed-commit (truncate_to) and rollback (truncate) semantics. Bounded: <=3 "
+            "records, 1-byte ids, delete/commit records only.",
             "Trusted: harness storage models append-mode file semantics; stubs (Backtrace::capture, fmt::format, crc32fast SIMD "
-            "dispatch, serde_json::from_slice -> Err, str::from_utf8 -> Ok for ASCII ids); Document drop is a no-op (ManuallyDrop "
-            "rewrite). Outside: which bytes the OS made durable, IndexWriter::new/commit (hash maps), add-document payloads."),
-    "C04": ("4.C04", "Fold kernel of IndexWriter::commit (source slice regenerated from the current source, container models for the "
-            "maps): for every sequence of 3 add/delete operations over 2 ids and every initial live set, the fold leaves exactly the "
-            "last-added ids pending and tombstones each previously live touched id exactly once.",
-            "Trusted: slice extraction by anchor lines; Vec-backed map models; Document payloads abstracted. Outside: visibility, "
-            "rollback, several writers, stored projection, compaction, reopen."),
-    "C07": ("4.C07", "Evaluation kernels: QueryEvaluator::matches_node/term_group_matches over concrete query-tree shapes "
-            "(bool must/should/must_not with symbolic minimum_should_match, should-only, dis_max, nested bool, query_string matcher) "
-            "with symbolic per-term document membership, and matches_phrase against a brute-force phrase/slop reference for symbolic positions.",
-            "Trusted: Vec-backed container model for the filter-grouping map; one document; depth <= 2. Outside: candidate "
-            "generation in search_segment/scan_segment, analyzers, dictionary expansion, query_string parsing, multi-segment behaviour."),
-    "C08": ("4.C08", "Query-time filter evaluation over directly constructed columns: passes_filter / passes_filters_at / nested_group_passes "
-            "and the FastFieldsReader match functions with symbolic column contents and filter constants, against per-object reference semantics.",
-            "Trusted: Vec-backed container models for the two maps; columns built directly (index-time construction of nested columns is outside); "
-            "ASCII keywords; 1 document, <=2 objects per path."),
-    "C09": ("4.C09", "Executor kernel: component contracts of TermState (advance_to / skip_to_block / upper bounds) and the top-k heap "
-            "helpers with symbolic term frequencies; BM25 replaced by a monotone surrogate.",
-            "Trusted: bm25 stub (any deterministic tf-monotone scorer); <=2 terms x <=2 postings. Outside: real BM25 numerics, long lists, "
-            "score_adjust interaction unless the differential harness is listed in evidence."),
-    "C10": ("4.C10", "Ordering kernels: SortKey::cmp / SortKeyPart::cmp / compare_* equal a specification comparator (missing last in both "
-            "directions, desc reverses, ties by segment then doc) for every value incl. NaN/-0 and every direction; antisymmetry, transitivity; "
-            "pick_numeric returns min for asc / max for desc over 0..3 values.",
-            "Bounded: 2-3 keys x 2 parts, 1-byte keyword parts, finite f64 field values. Outside: that keys are built from the right column "
-            "values, BM25 numerics, function/script score values."),
-    "C11": ("4.C11", "Cursor codec and top-k kernels: score-cursor encode/decode round trip for every generation/score bits/segment/doc/returned, "
-            "rejection of stale generations and over-cap advances, push_ranked keeps exactly the best `limit` keys; shares the strict-total-order "
-            "harnesses of C10.",
-            "Bounded: fixed 42-char score cursor, 4 hits, limit <= 3. Outside: the page loop in search (limit+1 fetch, saw_cursor, "
-            "total_hits_estimate), sort cursors (serde_json payload)."),
-    "C12": ("4.C12", "Merge kernels only: merge_stats (count/min/max/sum independent of how 4 values are split over 2 segments, both merge orders) "
-            "and exact-mode QuantileState push/merge/percentile/percentile_rank (merge of per-segment states equals a single state).",
-            "Bounded: <=4 values; integer-valued f64 for sums. Outside: every bucket aggregation (hash-map and JSON based), m2/variance, t-digest mode."),
-    "C16": ("4.C16", "Request-string kernels never panic: hex_decode and PaginationCursor::decode on every well-formed UTF-8 string of the bounded "
-            "lengths, char_prefix, wildcard/regex literal prefixes, varint decoder on arbitrary bytes.",
+            "dispatch, serde_json::from_slice -> Err, str::from_utf8 -> Ok for ASCII ids); dropping a queued Document is a no-op "
+            "(ManuallyDrop rewrite of the scratch copy). Outside: which bytes the OS made durable, Wal::last_pending_ops (spec'd "
+            "as 'operations after the last commit marker'), IndexWriter::new/commit (hash maps), add-document payloads."),
+    "C07": ("4.C07 / 8.5", "Evaluation kernels: the QueryString arm of QueryEvaluator::matches_node with symbolic per-term document "
+            "membership and symbolic minimum_should_match; the default-minimum_should_match logic of the Bool arm (source slice: "
+            "should clauses are optional next to must/filter) for all clause combinations; matches_phrase against a brute-force "
+            "phrase/slop reference for symbolic positions; resolve_minimum_should_match (count form, thorough).",
+            "Trusted: Vec/array-backed container models; source slice extraction by anchor lines. Outside: recursion of the Bool/DisMax "
+            "arms into children (heap-allocated query trees do not get through CBMC, measured), candidate generation in search_segment / "
+            "scan_segment, analyzers, dictionary expansion, query_string parsing, multi-segment behaviour."),
+    "C08": ("4.C08 / 8.5", "Query-time evaluation of LEAF filters over directly constructed columns: inclusive i64/f64 ranges on single- and "
+            "multi-valued fields, missing values, unknown / wrongly typed fields, case-insensitive keyword equality and membership, "
+            "per-object evaluation of nested columns and the 'some object satisfies the clause' rule of nested_filter_passes.",
+            "Trusted: array-backed model of the field map; key builders (format!) replaced by concatenation equivalents; str::to_lowercase "
+            "ASCII-only. Outside: And/Or/Not/Nested combinators incl. same-object binding of sibling nested clauses (Filter trees on the "
+            "heap do not get through CBMC), index-time construction of nested columns, non-ASCII case folding."),
+    "C09": ("4.C09 / 8.5", "Component contracts of the pruning executor: TermState::advance_to lands exactly on the first posting >= target; "
+            "skip_to_block never passes a posting >= target and moves in whole blocks; score_current <= block_upper_bound <= upper_bound "
+            "at every position for block sizes 1..3 (build_block_meta, upper_bound_tf); RankedDoc order; dis_max score combination.",
+            "Trusted: bm25 replaced by a monotone surrogate (CBMC's ln is nondeterministic); 4 postings, tf 1..3. Outside: wand_loop / "
+            "brute_force / the top-k heap (BinaryHeap with symbolic keys does not terminate), the score_adjust interaction, real BM25 numerics."),
+    "C10": ("4.C10", "Ordering and score-combination kernels: SortKey::cmp / SortKeyPart::cmp / compare_* equal a specification comparator "
+            "(missing last in both directions, desc reverses, ties by segment then doc) for every value incl. NaN/-0 and every direction; "
+            "antisymmetry, transitivity (3 keys x 3 parts in the thorough tier); pick_numeric returns min for asc / max for desc; RankedDoc "
+            "order; dis_max = max + tie*(sum-max) (source slice).",
+            "Bounded: 2-3 keys x 2-3 parts, 1-byte keyword parts, finite f64 field values. Outside: that keys are built from the right column "
+            "values, BM25 numerics, function/script score values, recursive ScoreExpr evaluation."),
+    "C11": ("4.C11 / 8.5", "Cursor codec kernels (source slices of PaginationCursor::encode/decode and decode_cursor): fields(layout(c)) = c for every "
+            "generation/score bits/segment/doc/returned, rejection above the advance cap and of foreign versions, per-chunk hex decoding of ANY "
+            "two bytes, stale-generation rejection; plus the strict-total-order harnesses shared with C10.",
+            "Trusted: slice extraction by anchor lines. Outside: the hex text produced by encode, the page loop in search (limit+1 fetch, "
+            "saw_cursor, total_hits_estimate), sort cursors (serde_json payload), push_ranked (BinaryHeap)."),
+    "C12": ("4.C12", "Merge kernels only: merge_stats (count/min/max/sum of a 2|1 segmentation equal a single segment, both merge orders) and "
+            "exact-mode QuantileState push/merge/percentile/percentile_rank (merged per-segment states equal a single state; 0/50/100th percentile).",
+            "Bounded: 3 integer-valued values. Outside: every bucket aggregation (hash-map and JSON based), m2/variance, interpolated percentiles, t-digest mode."),
+    "C16": ("4.C16", "Request-string and number kernels never panic: hex_decode on every well-formed UTF-8 string of 3/4 (6 thorough) bytes, the per-chunk "
+            "step and field extraction of PaginationCursor::decode, wrong-length cursors, char_prefix, wildcard/regex literal prefixes, "
+            "validate_boost / validate_tie_breaker on every f32, the varint decoder on arbitrary bytes.",
             "Bounded: 3-6 byte strings. Outside: the full search pipeline, regex/wildcard compilation, script tokenizer, aggregation config."),
-    "C17": ("4.C17", "Log-record checksum and decoders: every single-byte change of a 3-record log is detected by Wal::replay (only the intact "
-            "prefix is returned, never a different operation, no panic); truncation at every offset; varint round trip and garbage tolerance.",
-            "Trusted: crc32fast portable path (SIMD path assumed equivalent). Outside: verify_checksums / SegmentReader::open ordering, postings, "
-            "fast-field and docstore decoders, manifest JSON."),
+    "C17": ("4.C17", "Checksums and decoders: crc32 detects every single-byte change of a 4-byte (8 thorough) buffer; Wal::replay returns exactly the "
+            "intact prefix for every one-byte change of payload/checksum bytes and for the length/type changes that yield another valid frame, and for "
+            "every truncation; read_terms rejects every one-byte change of its payload/CRC; varint round trip and garbage tolerance.",
+            "Trusted: crc32fast portable path (SIMD path assumed equivalent). Outside: verify_checksums / SegmentReader::open ordering (so the terms "
+            "header that only the whole-file checksum protects), postings, fast-field and docstore decoders, manifest JSON."),
     "C19": ("4.C19", "Score-combination kernel only: combine_rescore_scores equals the documented formula bit-for-bit in all five modes for every pair of finite scores.",
             "Outside: the window, min_score drops and the re-sort (inline in rescore_hits over real segments)."),
     "C21": ("4.C21", "Fragment-window statements of highlight_fragments (source slice regenerated on every run) for every well-formed UTF-8 text of "
-            "6 bytes, every match on char boundaries and every fragment_size >= 2*match: fragment non-empty, a substring containing the match, <= fragment_size.",
-            "Trusted: slice extraction by anchor lines; regex returns a non-empty match on char boundaries. Outside: which terms match, tag insertion, materialize_hit."),
-    "C22": ("4.C22", "Prefix and edit-distance kernels: char_prefix returns the first min(len, chars) characters of every 4-byte UTF-8 string without "
-            "panicking; bounded_levenshtein against the textbook DP with one symbolic string.",
-            "Outside: dictionary scan, doc_freq, scan cap, segment independence, option ordering (inline closure over a hash map)."),
-    "C26": ("4.C26", "Bounded copy at the end of searchlite_search (source slice) against an exact-size heap buffer for capacities below, at and above "
-            "the response length: no out-of-bounds access, ret = min(len, cap-1), NUL terminated, prefix preserved, nothing written past the NUL; "
-            "null buffer / zero capacity write nothing; null handle/query guard; closing a null handle.",
-            "Trusted: slice extraction; response modelled as an arbitrary byte string. Outside: everything between the guards and the tail "
-            "(kani-compiler 0.68 crashes on the code reachable from Index::open / search)."),
-    "C30": ("4.C30", "Key-ordering kernel: CompositeKey::cmp / CompositeKeyPart::cmp is a strict total order consistent with equality for every "
-            "term byte / f64 bit pattern (antisymmetric, transitive, Equal iff identical), histogram keys numerically ordered, first source dominates.",
-            "Bounded: 3 keys x 2 parts, 1-byte strings. Outside: finalize_composite's after filter / size truncation / after_key presence and the "
-            "JSON round trip of keys (serde_json maps)."),
+            "5 bytes (6 and 8 thorough), every match on char boundaries and every fragment_size >= 2*match: fragment non-empty, a substring containing the match, <= fragment_size.",
+            "Trusted: slice extraction by anchor lines; regex returns a non-empty match on char boundaries. Outside: which terms match, tag insertion, the fragment loop, materialize_hit."),
+    "C22": ("4.C22 / 8.5", "Suggestion kernels: char_prefix returns the first min(len, chars) characters of every 4-byte UTF-8 string; bounded_levenshtein "
+            "equals the textbook distance with one symbolic character; distance_weight is in (0,1] and strictly decreasing; the option comparator "
+            "(source slice) orders by score descending then text and is a strict weak order.",
+            "Trusted: ASCII-only Chars stubs and SmallVec->Vec rewrite for bounded_levenshtein. Outside: dictionary scan, doc_freq, scan cap, segment independence."),
+    "C26": ("4.C26 / 8.5", "searchlite_search's handling of the caller's buffer (source slices: argument guard + everything after the search, composed): for "
+            "capacities below, at and above the response length no byte outside the buffer is written (canary zones + CBMC pointer checks), ret = min(len, cap-1), "
+            "NUL terminated, prefix preserved; null buffer / zero capacity write nothing; null handle/query return 0; closing a null handle.",
+            "Trusted: slice extraction (the generator refuses if the code between guard and search mentions the buffer); response modelled as an arbitrary "
+            "byte string. Outside: the search itself (kani-compiler 0.68 crashes on code reachable from Index::open / search)."),
+    "C30": ("4.C30", "Key-ordering kernel: CompositeKey::cmp / partial_cmp / CompositeKeyPart::cmp is a strict total order consistent with equality and with "
+            "the comparison operators for every term byte / f64 bit pattern; histogram keys numerically ordered; first source dominates.",
+            "Bounded: 3 keys x 2 parts, 1-byte strings. Outside: finalize_composite's after filter / size truncation / after_key presence and the JSON round "
+            "trip of keys (serde_json maps)."),
 }
 
 NOT_APPLICABLE = {
     "C01": "every crash point of a real file system under IndexWriter::commit / Index::compact / SegmentWriter (std HashMap, BTreeMap, serde_json, Uuid, Utc::now, FsStorage syscalls): none of it can be encoded by Kani/CBMC (a 2-element hash map alone does not terminate); the log-recovery part is decided under C02",
+    "C04": "the mechanism (the fold of queued operations into pending_new / tombstones in IndexWriter::commit) consists of conditional inserts into maps keyed by String over Document values: every container length becomes symbolic for the symbolic executor (measured on the same pattern: Post-processing out of memory at 25 GB) and dropping a replaced Document drags in the recursive drop glue of serde_json::Value; visibility, rollback, several writers, compaction and reopen need a real index",
     "C03": "a symbolic fault schedule would suit the technique, but the function that must run under it is IndexWriter::commit / Index::compact (hash maps, B-tree, serde_json, Uuid, clock) - out of reach as real code; the error branch is inline and cannot be sliced meaningfully",
     "C05": "quantifies over thread schedules; Kani/CBMC has no thread model for Rust (spawn unsupported)",
     "C06": "quantifies over reader/committer interleavings (RwLock, file handles); no concurrency support in Kani",
